@@ -117,6 +117,13 @@ SNIPPETS = {
                  '@deprecated(Version("pk", 1, 2, 3), "replacement")\ndef f(): pass\n@deprecated(Version("pk", "NEXT", 0, 0))\ndef g(): pass\n@deprecated()\ndef h(): pass\n'
                  '@deprecated(Version(1), 2)\ndef i(): pass\n@deprecated(version)\nclass C:\n    @deprecatedProperty(Version("pk", 1, 0, 0))\n    def p(self): pass\n'
                  '@deprecated(Version("pk", 1, 2), replacement=lambda: 1)\ndef j(): pass\n@deprecated(Version(package="pk", major=1, minor=2, micro=3))\ndef k(): pass\n',
+    'deprecate_nonliteral': 'from twisted.python.deprecate import deprecated, deprecatedProperty\nfrom incremental import Version\nPACKAGE = "pk"\n'
+                            '@deprecated(Version(PACKAGE, 21, 2, 0))\ndef f(): pass\n@deprecated(Version(__name__, 1, 0, 0))\ndef g(): pass\n@deprecated(Version(f"{PACKAGE}", 1, 0, 0), "x")\nclass C:\n'
+                            '    @deprecatedProperty(Version(pk.NAME, 1, 0, 0))\n    def p(self): pass\n@deprecated(Version(None, 1, 0, 0))\ndef h(): pass\n@deprecated(Version("", 1, 0, 0))\ndef i(): pass\n'
+                            '@deprecated(Version("pk", 1.5, None, "x"))\ndef j(): pass\n@deprecated(Version("pk", 1, 0, 0), replacement=1)\ndef k(): pass\n@deprecated(Version("a b", -1, 0, 0))\ndef l(): pass\n',
+    'constructors_odd': 'from typing import Self\nclass K:\n    def __init__(): pass\nclass N:\n    def __new__(): pass\nclass P:\n    @classmethod\n    def origin() -> "P": pass\n'
+                        '    @classmethod\n    def other() -> Self: pass\n    @staticmethod\n    def st() -> "P": pass\n    @classmethod\n    def star(*a, **k) -> "P": pass\n    @classmethod\n    def kwonly(*, a) -> "P": pass\n'
+                        'class Q:\n    def __init__(*args): "doc"\n    def __new__(**kw): "doc"\n    @classmethod\n    def make(cls, /) -> "Q": "doc"\n',
     'constants': 'A = 1\nB: Final = 2\nfrom typing import Final\nC: Final[int] = 3\nC = 4\nD = "x" * 5000\nE = [1] * 3\nF = {1: {2: {3: {4: {5: {}}}}}}\nG = 1_000_000.0e10j\nH = b"\\x00\\xff"\nI = ...\nJ = -(-(-1))\nK = not not x\n'
                  'L = 0x' + 'f' * 6000 + '\nM = """multi\nline"""\nN = f"{x}{y!r}{z:>{w}}"\nO = a if b else c\nP = lambda: 0\nQ = [i for i in range(3) if i]\nR = {**a}\nS = x[1:2, ..., ::3]\nT = (yield)\nU = await_\nV = a @ b\nW = a if b else (c, d)\n',
     'deep_binop': 'X = ' + ' + '.join(['1'] * 3000) + '\n',
